@@ -24,7 +24,7 @@ def _install_classifier():
 
 def classify(case_line):
     ks = _CLASS.get(case_line.get("coq"), set())
-    tags = case_line.get("tags", [])
+    tags = case_line.get("tags") or []
     if "class:pre-policy" in tags and "wl-to-host-pre-policy-accepts" in ks:
         return "wl-to-host-pre-policy-accepts"
     if "class:est-early" in tags and "unknown-wl-established-accepted-early" in ks:
